@@ -86,17 +86,18 @@ Definition strtoull (base : N) (s : bytes) : N * bytes :=
   let s1 := skip_space s in
   let '(neg, s2) :=
     match s1 with
-    | 45 :: t => (true, t)
-    | 43 :: t => (false, t)
-    | _ => (false, s1)
+    | c :: t => if c =? 45 then (true, t) else if c =? 43 then (false, t) else (false, s1)
+    | [] => (false, s1)
     end in
+  let dflt := if base =? 0 then 10 else base in
   let '(b, s3, atx) :=
     match s2 with
-    | 48 :: x :: t =>
-        if is_x x && ((base =? 16) || (base =? 0)) then (16, t, Some (x :: t))
-        else if base =? 0 then (8, s2, None) else (base, s2, None)
-    | 48 :: [] => if base =? 0 then (8, s2, None) else (base, s2, None)
-    | _ => if base =? 0 then (10, s2, None) else (base, s2, None)
+    | c :: x :: t =>
+        if (c =? 48) && is_x x && ((base =? 16) || (base =? 0)) then (16, t, Some (x :: t))
+        else if (c =? 48) && (base =? 0) then (8, s2, None)
+        else (dflt, s2, None)
+    | [c] => if (c =? 48) && (base =? 0) then (8, s2, None) else (dflt, s2, None)
+    | [] => (dflt, s2, None)
     end in
   let '(v, ovf, any, rest) := digits b s3 0 false false in
   if any then ((if ovf then MAXA else if neg then wsub 0 v else v), rest)
